@@ -74,6 +74,9 @@ class ItemsWindow(Monitor):
                 n = o["items_count"]
                 rec = latest_record(post, o["id"], o["route"])
                 e = g.get(key)
+                if e is not None and e.get("completed") and e.pop("maybe_rerun", False):
+                    ok = {k: x for k, x in e["done"].items() if x == st.SUCCEEDED}
+                    e.update({"done": ok, "offered": sorted(int(k) for k in ok), "completed": False, "reset": True})
                 if e is None or e.get("completed"):
                     e = {"n": n, "offered": [], "done": {}, "completed": False,
                          "rec": post["state"]["tasks"].get(key)}
@@ -84,6 +87,8 @@ class ItemsWindow(Monitor):
                     return v("item_offered_after_pause_or_cancel", pause=pre["h"]["pause_req"],
                              cancel=pre["h"]["cancel_req"])
                 for i in idxs:
+                    if e["done"].get(str(i)) == st.SUCCEEDED:
+                        return v("succeeded_item_offered_again", _detail={"task": o["id"], "item": i})
                     if i in e["offered"] and not e.get("reset"):
                         return v("item_offered_twice", _detail={"task": o["id"], "item": i, "offered": e["offered"]})
                     if e["offered"] and i < max(e["offered"]) and not e.get("reset"):
@@ -148,11 +153,29 @@ class ItemsWindow(Monitor):
                     return v("all_items_reported_but_task_still_running")
             return []
         if op == "rerun" and res.exc is None:
+            reqs = move[1]
             for key, e in g.items():
-                if isinstance(e, dict):
-                    e["reset"] = True
+                if not isinstance(e, dict):
+                    continue
+                failed_before = any(x in ABENDED or x == "canceled" for x in e["done"].values())
+                req = [r for r in reqs if "%s__r%s" % (r[0], r[1]) == key]
+                if reqs and not req:
+                    continue  # this execution is not re-executed
+                if not reqs:
+                    # default request: whether this execution is re-executed is the engine's choice of the
+                    # failed terminal tasks; decided when (and if) its items are offered again
+                    if failed_before:
+                        e["maybe_rerun"] = True
+                    continue
+                if req and req[0][2]:
+                    # reset_items: every item starts over
+                    e.update({"offered": [], "done": {}, "completed": False, "reset": False})
+                else:
+                    ok = {k: x for k, x in e["done"].items() if x == st.SUCCEEDED}
+                    e["done"] = ok
+                    e["offered"] = sorted(int(k) for k in ok)
                     e["completed"] = False
-                    e["done"] = {k: s for k, s in e["done"].items() if s == st.SUCCEEDED}
+                    e["reset"] = True
         return []
 
 
@@ -342,6 +365,10 @@ class ErrorsContained(Monitor):
             return v("exception_escaped", op=op, exc_type=res.exc_type, site=exc_site(e) if e else None,
                      _detail=res.exc)
         if post["state"] is None:
+            return []
+        if g["fired"] and op == "rerun" and res.exc is None:
+            # an accepted rerun request starts over: the failing expression may be evaluated again
+            g["fired"] = False
             return []
         if g["fired"]:
             self.stats["post_trigger_steps"] += 1
